@@ -92,6 +92,7 @@ type harnessResult struct {
 	Problems     []string              `json:"problems,omitempty"`
 	Samples      []oblSample           `json:"-"`
 	Funcs        map[string]bool       `json:"-"`
+	Summaries    map[string]bool       `json:"-"`
 	WallS        float64               `json:"wall_s"`
 	SolverS      float64               `json:"solver_s"`
 	Truncated    bool                  `json:"truncated_by_budget"`
@@ -148,6 +149,7 @@ func newMachine(w *worker, harness string, prefix []int, b budgets) *machine {
 		abortCh: make(chan struct{}), doneCh: make(chan struct{}, 4),
 		mutexes: map[*value]*mutexState{}, onces: map[*value]*onceState{}, wgs: map[*value]*wgState{},
 		funcs: map[string]bool{},
+		summarize: map[string]bool{}, sumCache: map[string]value{}, sumUsed: map[string]bool{},
 	}
 }
 
@@ -162,6 +164,7 @@ func (w *worker) runPath(fn *ssa.Function, prefix []int, b budgets) *machine {
 	m := newMachine(w, fn.Name(), prefix, b)
 	t0 := m.startThread(w.in, "main", func(t *thread) {
 		callOnThread(w.in, m, t, token.NoPos, fn, nil)
+		m.ensureFeasible()
 		if w.ex != nil && w.ex.wantWitness() {
 			m.wit = m.makeWitness()
 		}
@@ -244,8 +247,11 @@ func (ex *explorer) absorb(m *machine, queries int, solverTime time.Duration) {
 	for f := range m.funcs {
 		r.Funcs[f] = true
 	}
+	for f := range m.sumUsed {
+		r.Summaries[f] = true
+	}
 	problem := func(kind string) {
-		msg := kind + ": " + m.statusMsg
+		msg := kind + ": " + m.statusMsg + fmt.Sprintf(" [prefix %v]", m.curPrefix())
 		if len(r.Problems) < 10 {
 			for _, p := range r.Problems {
 				if p == msg {
@@ -303,7 +309,7 @@ func (ex *explorer) wantWitness() bool {
 }
 
 func exploreHarness(fn *ssa.Function, workers []*worker, b budgets, witnessCap int) *harnessResult {
-	res := &harnessResult{witnessCap: witnessCap, Harness: fn.Name(), Reach: map[string]int{}, Violations: map[string]*violation{}, ViolCount: map[string]int{}, Funcs: map[string]bool{}}
+	res := &harnessResult{witnessCap: witnessCap, Harness: fn.Name(), Reach: map[string]int{}, Violations: map[string]*violation{}, ViolCount: map[string]int{}, Funcs: map[string]bool{}, Summaries: map[string]bool{}}
 	ex := &explorer{res: res, sampleLabels: map[string]int{}, b: b, fn: fn}
 	ex.cond = sync.NewCond(&ex.mu)
 	ex.work = [][]int{nil}
